@@ -326,6 +326,8 @@ def run(repo, chk):
     annotation_cache_obligations(repo, chk, "R11.2")
     from .shared import activation_integrity_obligations
     activation_integrity_obligations(repo, chk, "R11.5", "tag probes")
+    from .shared import fit_memo_obligations
+    fit_memo_obligations(repo, chk, "R11.3", "a selector that names no function (`$v:@T`, `*:@T`) is fitted against each function on its own variable table, never against the table of another function that came before it")
     # ---------------- R11.5
     keyed = False
     for hname, paths in H.items():
